@@ -832,6 +832,10 @@ Hypothesis Hoff : compress o = false.
 Lemma conv_off args size : convert_to_range o args size = CNo.
 Proof. unfold convert_to_range. rewrite Hoff. cbn [negb]. now rewrite !orb_true_r. Qed.
 
+Lemma print_arg_val_top_scalar v rest cols prev b :
+  scalar v -> print_arg_val_top o (v :: rest) cols prev b = print_arg_val o (v :: rest) cols prev.
+Proof. destruct v; cbn [scalar]; try tauto; intros _; reflexivity. Qed.
+
 Lemma print_arg_val_scalar v rest cols prev :
   scalar v ->
   print_arg_val o (v :: rest) cols prev =
@@ -865,7 +869,8 @@ Proof.
   - destruct fuel; [discriminate|]. cbn [print_vals_loop] in Hrun. cbn [length] in Hn.
     replace (n <=? i) with false in Hrun by lia.
     pose proof (Forall_inv HP) as Hv. pose proof (Forall_inv_tail HP) as HP'.
-    rewrite conv_off, (print_arg_val_scalar v rest cols prev (HPs v Hv)) in Hrun.
+    rewrite conv_off, (print_arg_val_top_scalar v rest cols prev pend (HPs v Hv)),
+      (print_arg_val_scalar v rest cols prev (HPs v Hv)) in Hrun.
     destruct (print_scalar o v cols) as [[[t tmp] cols1]|] eqn:Eps; [|discriminate].
     rewrite ?orb_false_r in Hrun.
     destruct (Htok _ _ _ _ _ Hv Eps) as [Htk ->].
@@ -1136,7 +1141,7 @@ Proof.
     replace (n <=? i) with false by lia.
     pose proof (Forall_inv Hg) as Hv. pose proof (Forall_inv_tail Hg) as Hg'.
     assert (Hsc : scalar v) by (destruct v; cbn in Hv; try contradiction; exact I).
-    rewrite (conv_off o Hoff), (print_arg_val_scalar o v rest cols prev Hsc).
+    rewrite (conv_off o Hoff), (print_arg_val_top_scalar o v rest cols prev pend Hsc), (print_arg_val_scalar o v rest cols prev Hsc).
     destruct (print_scalar_some o v cols Hv) as (t & tmp & cols1 & E). rewrite E.
     rewrite (next_arg_offset_scalar v rest Hsc). change (skipz 1 (v :: rest)) with rest.
     destruct (if breaks_itself (av_type v) then (false, cols1, awtl)
